@@ -214,6 +214,9 @@ func mapsSchema() (main, impa, impb string) {
 	b.WriteString("  3 -> struct GPath { GSegment[] segs; map[string, GSegment] named; }\n  4 -> struct GBox { GSegment diag; GPoint[] corners; }\n")
 	b.WriteString("  5 -> message GMsg { 1 -> GPath[] paths; 2 -> map[uint32, GBox] boxes; }\n  7 -> struct GTri { GSegment a; GSegment b; GPoint apex; }\n}\n")
 	b.WriteString("struct UsesGeo { GSegment[] segs; map[string, GBox] boxes; GPath p; GTri[] tris; }\n")
+	// branch structs that hold a message directly and through arrays / maps of sibling branches (a chain, not a cycle:
+	// Validate rejects struct cycles even through arrays)
+	b.WriteString("message CyNote { 1 -> string text; }\nunion CyTree {\n  1 -> struct CyBranch { CyNote[] notes; }\n  2 -> struct CyLeaf { CyBranch[] parents; CyNote note; }\n  3 -> struct CyTwig { map[string, CyLeaf] byName; CyBranch[] up; }\n}\nstruct CyForest { CyBranch[] roots; CyTwig[] twigs; int32 n; }\n")
 	impa = "const string go_package = \"example.com/c14/impa\";\nstruct PA { int32 y; }\nstruct PB { string s; PA a; }\nenum EA { One = 1; Two = 2; }\nmessage MA { 1 -> PA a; 2 -> EA e; 3 -> PB b; }\nunion UA { 1 -> struct UAS { int32 z; } 2 -> message UAM { 1 -> PA p; } }\n"
 	impb = "const string go_package = \"example.com/c14/impb\";\nstruct QA { float32 y; }\nstruct QB { map[string, QA] m; }\nenum EB { X = 7; }\nmessage MB { 1 -> QA a; 2 -> QB b; }\n"
 	return b.String(), impa, impb
@@ -243,6 +246,20 @@ func schemaPath(id string) string {
 	return id
 }
 
+// noImports has no import statement (Generate merges nothing into its copies of the File's slices), three top-level structs
+// (ReadFile leaves spare capacity behind them) and a union with inline struct and message members.
+const noImports = `struct NiPoint { int32 x; int32 y; }
+struct NiSize { uint16 w; uint16 h; }
+struct NiLabel { string text; NiPoint at; }
+union NiShape {
+  1 -> struct NiCircle { NiPoint centre; float32 r; }
+  2 -> message NiText { 1 -> NiLabel label; 2 -> NiSize box; }
+  3 -> struct NiBox { NiPoint a; NiPoint b; NiLabel[] labels; }
+}
+message NiDrawing { 1 -> NiShape[] shapes; 2 -> map[string, NiCircle] named; }
+enum NiKind { A = 1; B = 2; }
+`
+
 func writeSchemas() {
 	w := func(rel, text string) string {
 		p := filepath.Join(workDir, "schemas", rel)
@@ -260,6 +277,7 @@ func writeSchemas() {
 	schemaPaths["builtin:maps"] = w("maps/main.bop", m)
 	w("maps/impa.bop", a)
 	w("maps/impb.bop", b)
+	schemaPaths["builtin:noimports"] = w("noimports/main.bop", noImports)
 }
 
 // ---------------------------------------------------------------- builds
@@ -543,7 +561,7 @@ func main() {
 	})
 
 	// map orders
-	allSchemas := append([]string{schemaPaths["builtin:maps"], small}, repoSchemas()...)
+	allSchemas := append([]string{schemaPaths["builtin:maps"], small, schemaPaths["builtin:noimports"]}, repoSchemas()...)
 	var cheap []*unit
 	allOps := append(append([]string{}, alphabet...), extraOps...)
 	for i := 0; i < len(allSchemas); i += 3 {
@@ -555,7 +573,7 @@ func main() {
 	}
 	// repetition / aliasing
 	maxLen := 2
-	repSchemas := []string{small, schemaPaths["builtin:maps"],
+	repSchemas := []string{small, schemaPaths["builtin:maps"], schemaPaths["builtin:noimports"],
 		filepath.Join(vlib.RepoDir(), "testdata", "incompatible", "import_separate_a.bop"),
 		filepath.Join(vlib.RepoDir(), "testdata", "base", "import.bop"),
 		filepath.Join(vlib.RepoDir(), "testdata", "base", "import_b.bop"),
